@@ -2,6 +2,8 @@ package props
 
 import (
 	"fmt"
+	"os"
+	"path/filepath"
 	"regexp"
 	"sort"
 	"strings"
@@ -40,6 +42,10 @@ type C17 struct {
 	UserFailed  []string       `json:"user_failed,omitempty"` // user-level failed-when-contains layered on top
 	Secret      string         `json:"secret"`
 	DevSeed     uint64         `json:"dev_seed"`
+	// Cwd: the process runs in a directory that holds an entry named like the platform ("dir": a
+	// directory, "file": a file with other content): the embedded definition must still be the one
+	// that loads
+	Cwd string `json:"cwd,omitempty"`
 }
 
 type rawDef struct {
@@ -91,6 +97,9 @@ func genC17(seed uint64, run int, tier string) Scenario {
 	}
 	sc.Secret = genSecret(r, "en-")
 	sc.DevSeed = r.Uint64()
+	if r.IntN(8) == 0 {
+		sc.Cwd = pick(r, "dir", "file")
+	}
 	sc.Class = "platform"
 
 	return sc
@@ -113,6 +122,22 @@ func runC17(env *Env, s Scenario) {
 	env.Res.Shape = fmt.Sprintf("%s/%s seg=%s", sc.Platform, sc.Variant, sc.Net.SegMode)
 	env.Res.Nontrivial = true
 	fail := func(clause, format string, a ...interface{}) { env.Fail(clause, sc.Platform, format, a...) }
+	if sc.Cwd != "" {
+		// (one run at a time per worker process: changing the working directory is safe)
+		old, _ := os.Getwd()
+		tmp, err := os.MkdirTemp("", "vsim-c17-")
+		if err == nil && old != "" {
+			if sc.Cwd == "dir" {
+				_ = os.Mkdir(filepath.Join(tmp, sc.Platform), 0o700)
+			} else {
+				_ = os.WriteFile(filepath.Join(tmp, sc.Platform), []byte("platform-type: 'something_else'\ndefault:\n  driver-type: 'generic'\n"), 0o600)
+			}
+			if os.Chdir(tmp) == nil {
+				defer func() { _ = os.Chdir(old); _ = os.RemoveAll(tmp) }()
+				env.Probe("cwd-holds-an-entry-named-like-the-platform")
+			}
+		}
+	}
 	// ---- static part (no schedule dimension) ----
 	raw, err := loadRaw(sc.Platform)
 	if err != nil {
